@@ -1125,7 +1125,7 @@ PROPS["C15"] = dict(
     rule="gen.py with singletons on 60% of types/enums and 1..4 extern values per module (pointer, array, user and built-in types; addresses in all literal spellings); "
          "near-miss: extern value without address; non-trivial = accepted with >= 1 singleton or extern value",
     level_text="Proved in Coq (Properties/C15.v): an extern value is registered only with an address attribute (last wins, negative rejected), keeps name/visibility/address, and ends with its declared type "
-               "resolved or the build fails; without an address it is rejected. RustExec defines the accessors' values (struct get: word at A, None when null; enum get: value at A; get_x: reference to A). On the emitted text (EmitFn*.v): the printed get accessors read back exactly the address they were given (C15_emitted_singleton, C15_emitted_enum_singleton) and every extern value has, in its module's file, a get_<name> with its visibility casting exactly its address to &'static mut <declared type> (C15_emitted_extern_value). "
+               "resolved or the build fails; without an address it is rejected. RustExec defines the accessors' values (struct get: word at A, None when null; enum get: value at A; get_x: reference to A). On the emitted text (EmitFn*.v): the printed get accessors read back exactly the address they were given (C15_emitted_singleton, C15_emitted_enum_singleton) and every extern value has, in its module's file, a get_<name> with its visibility casting exactly its address to &'static mut <declared type> (C15_emitted_extern_value). End to end from the declaration (EmitAccessors.v, EmitExternOnce.v, EmitSingletonOnce.v): a type or enum whose last #[singleton(A)] is A gets exactly one get accessor with its visibility that reads exactly A, one without the attribute gets none (C15_struct_singleton_declared/_exactly_once, C15_enum_singleton_*), negative values are rejected; every declared extern value gets get_<name> casting exactly the last declared address, the file holds no other get_* function (C15_extern_accessor_of_declaration, C14_extern_accessors_exactly_once), and an extern value without address is rejected at registration. "
                "Correspondence compares the emitted accessor items token for token (address by value); the monitor checks signature, address and cast type against the description.",
     level_note="Run-time behaviour of the emitted code is checked by the execution oracle on a sample per run (tools/exec_oracle.py: the emitted crate compiled with a generated driver and run on the host; singleton, enum-singleton and extern accessors; trusted: SysV ABI, ABI strings normalised to C). Trusted: Coq kernel; model validated by this run's correspondence; RustExec.v definitions for what the accessor bodies compute.",
 )
